@@ -579,8 +579,7 @@ func visitInstr(fr *frame, instr ssa.Instruction) continuation {
 	case *ssa.Panic:
 		panic(targetPanic{fr.get(instr.X)})
 	case *ssa.Send:
-		ch := fr.get(instr.Chan).(*Chan)
-		chanSend(fr, instr, ch, fr.get(instr.X))
+		chanSend(fr, instr, asChan17(fr.get(instr.Chan)), fr.get(instr.X))
 	case *ssa.Store:
 		addr := fr.get(instr.Addr)
 		checkPoison(addr)
@@ -695,82 +694,16 @@ func visitInstr(fr *frame, instr ssa.Instruction) continuation {
 	return kNext
 }
 
-func goStmt(fr *frame, instr *ssa.Go, fn Val, args []Val) {
-	if in.initing {
-		return // background workers started by init are not modelled
-	}
-	unsupported("go statement in " + fr.fn.String())
-}
+// Goroutines, channel operations and select are modelled in x_c17.go
+// (deterministic cooperative tasks).
 
-func chanSend(fr *frame, instr ssa.Instruction, ch *Chan, v Val) {
-	if ch == nil {
-		unsupported("send on nil channel (blocks forever)")
-	}
-	if ch.closed {
-		fr.fault(instr, "closedchan", "send on closed channel")
-	}
-	if len(ch.buf) >= ch.cap {
-		unsupported("send on a full/unbuffered channel (would block; single-threaded engine)")
-	}
-	old := ch.buf
-	logUndo(func() { ch.buf = old })
-	ch.buf = append(append([]Val(nil), ch.buf...), v)
-}
+func goStmt(fr *frame, instr *ssa.Go, fn Val, args []Val) { goStmt17(fr, instr, fn, args) }
 
-func chanRecv(fr *frame, ch *Chan, elem types.Type) (Val, bool) {
-	if ch == nil {
-		unsupported("receive on nil channel (blocks forever)")
-	}
-	if len(ch.buf) == 0 {
-		if ch.closed {
-			return zero(elem), false
-		}
-		unsupported("receive on an empty channel (would block; single-threaded engine)")
-	}
-	old := ch.buf
-	logUndo(func() { ch.buf = old })
-	v := ch.buf[0]
-	ch.buf = append([]Val(nil), ch.buf[1:]...)
-	return v, true
-}
+func chanSend(fr *frame, instr ssa.Instruction, ch *Chan, v Val) { chanSend17(fr, instr, ch, v) }
 
-func selectOp(fr *frame, instr *ssa.Select) Val {
-	// single-threaded: pick the first ready case, else default
-	chosen := -1
-	var recvVal Val
-	recvOk := false
-	for i, st := range instr.States {
-		ch := fr.get(st.Chan).(*Chan)
-		if ch == nil {
-			continue
-		}
-		if st.Dir == types.RecvOnly {
-			if len(ch.buf) > 0 || ch.closed {
-				chosen = i
-				recvVal, recvOk = chanRecv(fr, ch, st.Chan.Type().Underlying().(*types.Chan).Elem())
-				break
-			}
-		} else if len(ch.buf) < ch.cap {
-			chosen = i
-			chanSend(fr, instr, ch, fr.get(st.Send))
-			break
-		}
-	}
-	if chosen < 0 && instr.Blocking {
-		unsupported("blocking select with no ready case")
-	}
-	r := Tuple{int64(chosen), recvOk}
-	for i, st := range instr.States {
-		if st.Dir == types.RecvOnly {
-			if i == chosen && recvOk {
-				r = append(r, recvVal)
-			} else {
-				r = append(r, zero(st.Chan.Type().Underlying().(*types.Chan).Elem()))
-			}
-		}
-	}
-	return r
-}
+func chanRecv(fr *frame, ch *Chan, elem types.Type) (Val, bool) { return chanRecv17(fr, ch, elem) }
+
+func selectOp(fr *frame, instr *ssa.Select) Val { return selectOp17(fr, instr) }
 
 func fatalf(format string, args ...any) {
 	fmt.Fprintf(os.Stderr, format+"\n", args...)
